@@ -151,14 +151,19 @@ func runSchedules(r *ev.Run) {
 	}
 	bound := 2
 	if r.Thorough() {
-		bound = 3
+		bound = 4
 	}
 	r.Bounds["preemption_bound"] = bound
 	r.Bounds["sched_focus"] = []string{"JobQueue", "Tasks"}
 	var total, points int64
 	for si, sc := range scenarios() {
 		outcomes := map[string]bool{}
-		t := explore.Tree{Bound: bound, Deadline: time.Now().Add(deadline(r))}
+		b := bound
+		if sc.viaTS && b > 3 {
+			b = 3 // the real-entry-point scenario has ~3x the choice points; bound 3 completes
+		}
+		r.Bounds[fmt.Sprintf("preemption_bound_scenario_%d", si)] = b
+		t := explore.Tree{Bound: b, Deadline: time.Now().Add(deadline(r))}
 		t.Run(func(c *explore.Chooser) {
 			a := &agent.Agent{NameID: "0000d001", Info: &agent.AgentInfo{}}
 			h := &hist{}
